@@ -268,7 +268,10 @@ def serbufs : Handler := fun args _ =>
   | [fe, pe] =>
     match fmtOf fe, decodeProg pe with
     | some none, some (p, tb) => { model := showBufs (serCompact (extOf tb) p) }
-    | some (some indent), some (p, tb) => { model := showBufs (serPretty (extOf tb) indent p) }
+    | some (some indent), some (p, tb) =>
+      -- `current_indent -= 1` at 0: a panic in the harness build (overflow checks on)
+      if prettyUnderflows (extOf tb) indent p then { model := "PANIC" }
+      else { model := showBufs (serPretty (extOf tb) indent p) }
     | _, _ => bad "decode"
   | _ => bad "arity"
 
